@@ -272,6 +272,15 @@ def main():
     m = re.search(r'fn shell_words\(line: &str\) -> Vec<String> \{.*?if matches!\(c,\s*((?:\'[^\']\'\s*\|?\s*)+)\)', pol, re.S)
     ops = re.findall(r"'(.)'", m.group(1)) if m else []
     L.append('Definition policy_op_chars : list N := [%s]. (* %s *)' % (';'.join(str(ord(c)) for c in ops), ' '.join(ops).replace('*)', '* )')))
+    # (C20) the three users of the one mutating set: lint, help --json, and the guard's own registration check
+    lint_const = bool(re.search(r'fn lint_claude_command_dangerous_defaults\(.*?crate::cli::util::MUTATING_COMMAND_IDS', pol, re.S))
+    helpsrc = read(repo, 'src/cli/commands/help.rs')
+    help_const = bool(re.search(r'"mutating_commands"\s*:\s*super::super::util::MUTATING_COMMAND_IDS', helpsrc)) and \
+        bool(re.search(r'mutating:\s*super::super::util::MUTATING_COMMAND_IDS\s*\.contains\(', helpsrc))
+    guard_const = bool(re.search(r'fn require_yes_for_json_mutation\(.*?debug_assert!\(\s*MUTATING_COMMAND_IDS\.contains\(&command_id\)', util, re.S))
+    L.append('Definition lint_uses_mutating_const : bool := %s.' % ('true' if lint_const else 'false'))
+    L.append('Definition help_uses_mutating_const : bool := %s.' % ('true' if help_const else 'false'))
+    L.append('Definition guard_checks_mutating_const : bool := %s.' % ('true' if guard_const else 'false'))
 
     # error codes in source and registry in docs
     src_codes = set()
